@@ -45,6 +45,8 @@ class _DA:
     @staticmethod
     def _walk_scope(node):
         """walk without entering nested function / lambda / comprehension scopes"""
+        if isinstance(node, (ast.ListComp, ast.SetComp, ast.DictComp, ast.GeneratorExp)):
+            node = node.generators[0].iter   # only the first iterable belongs to the enclosing scope
         todo = [node]
         while todo:
             n = todo.pop()
